@@ -359,7 +359,7 @@ def check(case, res):
     if m.get("kind") == "wrongmod":
         from . import c17
         return c17.check(case, res)
-    if m.get("kind") in ("decl", "forall", "vary", "tupitem", "refuse"):
+    if m.get("kind") in ("decl", "forall", "vary", "tupitem", "refuse", "copy", "dim"):
         return check_extra(case, res, vs)
     st = res["steps"]
     kind = m["kind"]
@@ -590,6 +590,55 @@ def refuse_gen(tier):
     return gen
 
 
+# a copy of a container is a container of the same type in every respect: whatever is built from the copy (nesting it, storing into
+# it, handing it to a function) equals what is built from the original
+COPY_SRC = {"tuples": 'tab(2, tup(1, "a"))', "tuples2": 'tab(1, tab(2, tup(1, "a")))', "ints": "tab(2, 7)", "strings2": 'tab(1, tab(1, "s"))', "tuple": 'tup(1, "a", 2.5)',
+            "null-tuples": 'tab(int(), tup(1, "a"))', "empty-tuples": 'tab(0, tup(1, "a"))'}
+COPY_VIA = {"assign": "b = a;", "function": "function cpy(v) return undefined is begin return v; end; b = cpy(a);",
+            "typed-function": "function cpt(v:table) return table is begin w = v; return w; end; b = cpt(a);",
+            "element": "h = tab(1, a); b = h.at(0);", "twice": "b0 = a; b = b0; b0 = null;", "clone-like": "b = a; b = b;"}
+COPY_USE = ["x = tab(2, %s);", "x = tab(1, %s); x.concat(tab(1, %s));", "x = tab(0, %s); x.concat(%s);", "x = tab(1, %s); x.put(0, %s);", "x = tab(1, %s); x.insert(0, %s);",
+            'x = %s; x.concat(tup(2, "z"));', 'x = tab(1, %s); x.at(0).concat(tup(3, "y"));', "x = tup(1, 2); y = tab(1, %s); print typeof(y.at(0));",
+            "x = tab(2, tab(1, %s));", "x = tab(1, %s); y = x; y.concat(x);"]
+
+
+def copy_gen(tier):
+    def gen():
+        n = 0
+        for sname, src in COPY_SRC.items():
+            for vname, via in COPY_VIA.items():
+                if vname == "typed-function" and sname == "tuple":
+                    continue
+                for use in COPY_USE:
+                    if sname == "tuple" and "concat(tup" in use:
+                        continue
+                    pa = "a = %s; %s %s" % (src, via, use.replace("%s", "a"))
+                    pb = "a = %s; %s %s" % (src, via, use.replace("%s", "b"))
+                    ops = [op_ctx(0), op_run(pa), op_out(0), op_dump(0, "X,Y"), op_ctx(1), op_run(pb, slot=1), op_out(1), op_dump(1, "X,Y")]
+                    yield Case("cp%d" % n, ops, {"kind": "copy", "src": sname, "via": vname, "use": use, "prog": pb})
+                    n += 1
+    return gen
+
+
+# the number of dimensions has a limit (254): every constructor stops there with an error, none wraps around
+DIM_CTORS = {"tab(1, t)": "t = tab(1, t);", "tab(0, t)": "t = tab(0, t);", "tab(null, t)": "t = tab(int(), t);", "tab(2, t)": "t = tab(2, t); t.delete(1);",
+             "function": "t = wrap(t);", "element": "h = tab(1, t); t = tab(1, h.at(0));"}
+
+
+def dim_gen(tier):
+    def gen():
+        n = 0
+        for cname, step in DIM_CTORS.items():
+            for depth in (1, 2, 100, 252, 253, 254, 255, 256, 257, 300, 511, 513):
+                prog = ('function wrap(x) return table is begin return tab(1, x); end; t = tab(1, "x"); n = 1; '
+                        "for i in 1 to %d loop %s n = n + 1; end loop;" % (depth, step))
+                ops = [op_ctx(), op_run(prog), op_run("print n; print lower(typeof(t)); zz = t; while lower(typeof(zz)) == \"table\" and not isnull(zz) and zz.count() > 0 loop zz = zz.at(0); end loop; print lower(typeof(zz)) isnull(zz);"),
+                       op_out(0)]
+                yield Case("dm%d" % n, ops, {"kind": "dim", "ctor": cname, "depth": depth})
+                n += 1
+    return gen
+
+
 def tupitem_gen(tier):
     """tup() takes scalars only (the manual: nesting and tables are not allowed): also when the item's type is only known at run time"""
     def gen():
@@ -606,6 +655,36 @@ def tupitem_gen(tier):
 def check_extra(case, res, vs):
     m = case.meta
     st = res["steps"]
+    if m["kind"] == "dim":
+        run, probe, out = st[1], st[2], unhex(st[3].get("out", "")).decode("latin-1").split("\n")
+        levels = m["depth"] + 1
+        if levels <= 254:
+            if run.get("r") != "ok":
+                vs.append(Violation("dimension:refused-below-limit:%s" % m["ctor"], "%d dimensions through %s: %s" % (levels, m["ctor"], run), case))
+        elif run.get("r") == "ok":
+            vs.append(Violation("dimension:limit-passed:%s" % m["ctor"], "%d dimensions through %s were accepted" % (levels, m["ctor"]), case))
+        # whatever happened, t is still a table and the innermost value is the string (or a null table where the constructor makes nulls)
+        if probe.get("r") != "ok" or len(out) < 3 or out[1] != "table" or out[2] not in ("stringFALSE", "tableTRUE", "tableFALSE"):
+            vs.append(Violation("dimension:value-damaged:%s" % m["ctor"], "after %d nestings through %s: probe %s prints %r" % (m["depth"], m["ctor"], probe.get("r"), out), case))
+        else:
+            reached = int(out[0]) if out[0].isdigit() else -1
+            if reached > 254:
+                vs.append(Violation("dimension:limit-passed:%s" % m["ctor"], "%s reached %d dimensions" % (m["ctor"], reached), case))
+        return vs, True
+    if m["kind"] == "copy":
+        ra, oa, da, rb, ob, db = st[1], st[2].get("out"), st[3].get("vars"), st[5], st[6].get("out"), st[7].get("vars")
+        # a copy that went through a function is opaque to the compiler: a refusal may move from compile time to run time and declared
+        # symbol types may be less precise; outcome class, output and values must agree
+        def cls(r):
+            return "ok" if r.get("r") == "ok" else "refused"
+
+        def values(d):
+            return {k: v.partition("=")[2] for k, v in (d or {}).items()}
+        same = cls(ra) == cls(rb) and (cls(ra) != "ok" or (oa == ob and values(da) == values(db)))
+        if not same:
+            vs.append(Violation("copy-differs:%s:%s" % (m["src"], m["via"]), "%s gives %s %s %r; with the original in place of the copy %s %s %r" % (
+                m["prog"], rb.get("r"), rb.get("msg"), db, ra.get("r"), ra.get("msg"), da), case))
+        return vs, True
     if m["kind"] == "refuse":
         before, run, after = st[2].get("vars", {}), st[3], st[4].get("vars", {})
         if st[1].get("r") != "ok":
@@ -746,6 +825,8 @@ def run(tier):
     total.merge(explore("%s-%s-varying" % (PROP, tier), vary_gen(tier), check, chunk=100, deadline=deadline))
     total.merge(explore("%s-%s-tuple-items" % (PROP, tier), tupitem_gen(tier), check, chunk=50, deadline=deadline))
     total.merge(explore("%s-%s-refused-unchanged" % (PROP, tier), refuse_gen(tier), check, chunk=100, deadline=deadline))
+    total.merge(explore("%s-%s-copies" % (PROP, tier), copy_gen(tier), check, chunk=100, deadline=deadline))
+    total.merge(explore("%s-%s-dimensions" % (PROP, tier), dim_gen(tier), check, chunk=20, deadline=deadline))
     # module objects: a table / tuple made for objects of one module never holds an object of another one (the programs and the
     # oracle are those of C17's wrong-module family: direct stores, and stores of what functions with declared or opaque results return)
     from . import c17
